@@ -312,7 +312,7 @@ impl Scenario for OscScenario {
     }
     fn runs(&self, tier: &str) -> u64 {
         if tier == "quick" {
-            150_000
+            400_000
         } else {
             10_000_000
         }
